@@ -362,6 +362,37 @@ def mk_two_copies_text(name, at_origin=False, raw=False):
     return body
 
 
+def mk_union_far_multiconformation(near, far, listed):
+    """the part under study, with a titrate-only list naming its residues, together with a far-away part that has
+    alternate locations (so that the file has several conformations and the near part is copied into them): the reported
+    (averaged) values of the near part are those of the near part alone with the same list"""
+    def body(ctx):
+        from . import micro as M
+        axis = ctx.choice('axis', [0, 1, 2])
+        off = ctx.choice('offset', [64.0, 500.0, 2000.0])
+        order = ctx.choice('file_order', ['near-first', 'far-first'])
+        use_list = ctx.choice('titrate_only', [True, False])
+        args = ['-i', listed] if use_list else []
+        fartxt = []
+        for l in M.text(far).split('\n'):
+            if l[:6] in ('ATOM  ', 'HETATM'):
+                c = [float(l[30:38]), float(l[38:46]), float(l[46:54])]
+                c[axis] += off
+                fartxt.append(l[:21] + 'B' + l[22:30] + '%8.3f%8.3f%8.3f' % tuple(c) + l[54:])
+            elif l:
+                fartxt.append(l)
+        fartxt = '\n'.join(fartxt) + '\n'
+        alone = M.run(M.text(near), args=args)
+        both = M.run((M.text(near) + fartxt) if order == 'near-first' else (fartxt + M.text(near)), args=args)
+        ctx.claim('several-conformations', len(both.conformation_names) >= 2)
+
+        def rec(mol):
+            return sorted((g.type, g.atom.name, g.atom.res_num, bool(g.titratable), round(g.pka_value, 6), round(g.energy_volume, 6), int(g.num_volume))
+                          for g in mol.conformations['AVR'].groups if g.atom.chain_id == 'A')
+        ctx.claim('near-part-as-alone', rec(both) == rec(alone), detail='%r vs %r' % (rec(both)[:3], rec(alone)[:3]))
+    return body
+
+
 _BASE = {}
 
 
@@ -444,6 +475,11 @@ def obligations(tier):
         obs.append(Obligation('O3-two-copies-in-the-text[%s,records as in the file]' % name, mk_two_copies_text(name, raw=True), code=['propka/input.py:get_atom_lines_from_pdb', 'propka/run.py:single (whole pipeline)'],
                               bounds='%s (protein, TER, hetero block) followed directly by a copy (chain B) 64 ... 9000 A away along x, y or z (18 concrete files, hydrogens built by the program)' % name, kind='table-check',
                               claim_doc='each copy has the groups (incl. its N-terminus), the desolvation and, within 0.01, the pKa of the structure alone', max_paths=200))
+    for near, far, listed in ([('tri_ASP', 'tri_SER|BC@37', 'A:25')] if tier == 'quick' else [('tri_ASP', 'tri_SER|BC@37', 'A:25'), ('pair_GLU_ARG_TYR', 'tri_SER|BC@37', 'A:35,A:57'), ('pep8', 'tri_SER|BC@37', 'A:29,A:30')]):
+        obs.append(Obligation('O3-far-part-with-alternate-locations[%s]' % near, mk_union_far_multiconformation(near, far, listed), code=['propka/atom.py:Atom.make_copy', 'propka/molecular_container.py:MolecularContainer.top_up_conformations',
+                                                                                                                                    'propka/conformation_container.py:ConformationContainer.init_group', 'propka/run.py:single (whole pipeline)'],
+                              bounds='%s plus a far part (chain B, 64 / 500 / 2000 A away along x, y or z) with alternate locations B and C; both file orders; with and without -i %s (36 concrete files)' % (near, listed), kind='table-check',
+                              claim_doc='the averaged records of the near part equal those of the near part alone', max_paths=200))
     # an incompletely modelled residue in each part, the first part sitting at the coordinate origin (a point that does not move with a part)
     for name in (['tri_ASP~-OD1-OD2@25'] if tier == 'quick' else ['tri_ASP~-OD1-OD2@25', 'tri_GLU~-OE1-OE2@21', 'tri_ASP~-OD2@25', 'pep8~-OD1-OD2@29']):
         obs.append(Obligation('O3-two-copies-in-the-text[%s,first at the origin]' % name, mk_two_copies_text(name, at_origin=True), code=['propka/group.py:*Group.setup_atoms', 'propka/group.py:Group.set_center', 'propka/run.py:single (whole pipeline)'],
